@@ -404,11 +404,13 @@ class HistoryGen:
             deps = tuple(rng.sample(dpool, nd))
             if rng.random() < 0.12:
                 nd, deps = 0, ()               # a task without dependencies (an initialiser): it only runs when asked to
+            elif rng.random() < 0.15:
+                nt, targets = 0, ()            # a task without targets (an observer): it runs, and writes nothing
             coefs = tuple(tuple(rng.choice([0.5, 1.0, 2.0, -1.0, 0.25]) for _ in range(nd)) + (rng.choice([0.0, 1.0, -0.5]),)
                           for _ in range(nt))
             self.tcount += 1
             # a task id is any hashable: usually a string, sometimes the reference of the (first) target
-            return ("regf", "t%d%s" % (self.tcount, self.cfg["salt"]), deps, targets, coefs, rng.random() < 0.3,
+            return ("regf", "t%d%s" % (self.tcount, self.cfg["salt"]), deps, targets, coefs, bool(targets) and rng.random() < 0.3,
                     rng.random() < 0.3)      # last flag: targets/dependencies handed over as lists (with repeated entries) instead of sets
         if kind == "unregf":
             if not m.ftasks:
